@@ -54,6 +54,7 @@ pub fn configs(prop: &str) -> Vec<Config> {
             c("hash", 10_000, 60_000),
             c("history", 4_000, 40_000),
             c("threads", 4_000, 60_000),
+            c("multirule", 2_500, 30_000),
             Config { kind: "process", quick: 2, thorough: 2, exhaustive: true },
         ],
         "C13" => vec![c("validate", 12_000, 400_000), c("torn", 12_000, 400_000)],
